@@ -9,7 +9,8 @@ from oracles import *
 
 # delimiter pool P of DESIGN.md §6
 POOL = [('<', '>'), ('<!-- <', '> -->'), ('/* <', '> */'), ('// --', '-- //'), ('aab', 'bba'), ('<<', '>>'),
-        ('|', '|'), ('«', '»'), ('→ ', ' ←'), ('((', '))'), ('.*[', ']+?'), ('<', '/>')]
+        ('|', '|'), ('«', '»'), ('→ ', ' ←'), ('((', '))'), ('.*[', ']+?'), ('<', '/>'),
+        ('{%', '-%}')]   # a three-character end delimiter whose proper prefixes are not runs of its first character
 
 
 def delims(p, ctx):
@@ -351,10 +352,10 @@ def c10_pairing(ctx, p):
             src += [116]
             toks.append(('T',))
         elif k.startswith('open'):
-            src += [60] + names[k[-1]] + [62]
+            src += [60] + names[k[-1]] + list(p.get('open_suffix', '').encode()) + [62]     # (well-formed attributes behind the name, if the job says so)
             toks.append(('O', names[k[-1]]))
         else:
-            src += [60, 47] + names[k[-1]] + [62]
+            src += [60, 47] + names[k[-1]] + list(p.get('close_suffix', '').encode()) + [62]
             toks.append(('C', names[k[-1]]))
     exp = oracle_pairing(ctx, toks)
     flat_e = [n for n in exp if n[0] == 'E']
